@@ -1698,7 +1698,6 @@ class PrepareAst:
 
             for elt in iterable:
                 target.unpack(elt)
-                expr = self.apply(inp.elt)
 
                 excluded = False
 
@@ -1711,12 +1710,16 @@ class PrepareAst:
                         ifexpr_result, bool
                     ), "trailing if expressions of comprehensions may not depend on runtime variable objects"
 
-                    if not ifexpr_result:
-                        excluded = True
-
                     bound_expr.append(ifexpr_converted)
 
+                    if not ifexpr_result:
+                        # like in Python, later conditions and the element
+                        # expression are not evaluated for excluded items
+                        excluded = True
+                        break
+
                 if not excluded:
+                    expr = self.apply(inp.elt)
                     result_expr.append(expr)
                     bound_expr.append(expr)
 
@@ -1744,9 +1747,6 @@ class PrepareAst:
             for elt in iterable:
                 target.unpack(elt)
 
-                key_expr = self.apply(inp.key)
-                val_expr = self.apply(inp.value)
-
                 excluded = False
 
                 for ifexpr in gen.ifs:
@@ -1758,12 +1758,17 @@ class PrepareAst:
                         ifexpr_result, bool
                     ), "trailing if expressions of comprehensions may not depend on runtime variable objects"
 
-                    if not ifexpr_result:
-                        excluded = True
-
                     bound_expr.append(ifexpr_converted)
 
+                    if not ifexpr_result:
+                        # like in Python, later conditions and the key/value
+                        # expressions are not evaluated for excluded items
+                        excluded = True
+                        break
+
                 if not excluded:
+                    key_expr = self.apply(inp.key)
+                    val_expr = self.apply(inp.value)
                     key = key_expr.result()
 
                     assert (
